@@ -3,6 +3,7 @@ C07 — Writer conformance (property sizes and section shapes of what py7zr's wr
 -/
 import SevenZ.Lemmas.FilesInfo
 import SevenZ.Lemmas.SpecProps
+import SevenZ.Lemmas.SpecFiles
 namespace SevenZ.C07
 open SevenZ SevenZ.Impl
 
@@ -45,6 +46,32 @@ theorem strict_reader_accepts_attrs (fuel n ne : Nat) (seen : Bool) (files : Lis
     Spec.sFileProps (fuel + 1) n files ne seen (attrsBlock true slots ++ rest) =
       Spec.sFileProps fuel n (Spec.setList files (slots.map slotOpt) (fun f t => { f with attr := t })) ne seen rest :=
   spec_attrs_step fuel n ne seen files slots hlen hn hv rest
+
+/-- Writer conformance of the whole FilesInfo section.  For ANY member list — any number of
+    members below 2^32, names over all Unicode scalar values (BMP and astral), any pattern of
+    empty-stream entries, modification times and attribute words defined or undefined in any
+    pattern, written at any file offset (which decides the kDummy padding) — the bytes
+    `FilesInfo.write` emits are accepted by the strict reader, a parser written from the format
+    document that checks every count, property size, bit-vector length and padding, and it
+    recovers for every member exactly the name, the empty-stream flag, the time and the
+    attribute word that were written; undefined entries stay undefined. -/
+theorem strict_reader_accepts_filesinfo (fi : FilesInfo) (pos : Nat) (rest : Bytes)
+    (hnm : ∀ e ∈ fi.files, e.filename.isSome = true) (hsc : ∀ e ∈ fi.files, ∀ c ∈ nameOf e, IsScalar c)
+    (hn : fi.files.length < 2 ^ 32)
+    (hmt : ∀ e ∈ fi.files, ∀ t, e.mtime = .val t → t < 256 ^ 8) (hat : ∀ e ∈ fi.files, ∀ t, e.attributes = .val t → t < 256 ^ 4)
+    (hsize : ((fi.files.map nameOf).map (fun n => 2 * (n.flatMap unitsOf).length + 2)).sum + 1 < 2 ^ 64)
+    (hef : (fi.files.map (·.emptystream)).any id = false → fi.emptyfiles.any id = false) :
+    Spec.sFilesInfo ((writeFilesInfo true fi pos).drop 1 ++ rest) = .ok (fi.files.map toSFile, rest) :=
+  filesinfo_strict_read fi pos rest hnm hsc hn hmt hat hsize hef
+
+/-- the hypotheses are satisfiable: a directory, a file with an astral-plane name, an undefined time -/
+example : (Spec.sFilesInfo ((writeFilesInfo true
+      { files := [{ emptystream := true, filename := some [100], mtime := .val 5, attributes := .val 16 },
+                  { emptystream := false, filename := some [0x1F600, 46, 97], mtime := .undef, attributes := .val 32 }],
+        emptyfiles := [false, false] } 35).drop 1 ++ [7, 7])).toOption =
+    some ([{ name := some [100], emptyStream := true, mtime := some 5, attr := some 16 },
+          { name := some [0x1F600, 46, 97], emptyStream := false, mtime := none, attr := some 32 }], [7, 7]) := by
+  decide +kernel
 
 /-- boolean vectors as written are read back by the strict reader (all-defined shortcut and
     bit field with zero padding), for every vector -/
